@@ -84,7 +84,29 @@ def discharge(ob, axioms, timeout_ms=20000, want_model=True):
             pass
         o2 = _O()
         o2.hyps, o2.goal = hyps[:-1], z3.Not(hyps[-1])
-        r = discharge(o2, axioms, timeout_ms, want_model)
+        # quick attempt at a counter-model: the hypotheses and definitions connected to the last path condition through
+        # shared symbols (fixpoint) are usually few - e.g. an early `raise` before any buffer is touched; a model of that
+        # component, completed with defaults for everything else, is then *confirmed* on the full set with the inputs pinned
+        try:
+            comp_h, comp_a = relevant(o2.hyps, axioms, o2.goal, 50)
+            if len(comp_h) + len(comp_a) < len(o2.hyps) + len(axioms):
+                rc, dtc, sc = _check(comp_h, comp_a, o2.goal, 5000)
+                if rc == z3.sat:
+                    mc = sc.model()
+                    pins = []
+                    for c in constants_of(hyps):
+                        vv = mc.eval(c, model_completion=True)
+                        if z3.is_int_value(vv) or z3.is_true(vv) or z3.is_false(vv) or (z3.is_seq(c) and z3.is_app(vv) and not symbols(vv)):
+                            pins.append(c == vv)
+                    rf, dtf, sf = _check(o2.hyps + pins, axioms, o2.goal, 10000)
+                    if rf == z3.sat:
+                        return {"status": "refuted", "time": dtc + dtf, "backend": "z3(model of the connected component, confirmed on the full set with pinned inputs)",
+                                "model": sf.model() if want_model else None, "reason": ""}
+        except z3.Z3Exception:
+            pass
+        # a feasible path here is a finding, and finding its model takes the solver longer than refuting an infeasible one:
+        # these obligations get at least the default budget whatever the contract's own (shorter) timeout says
+        r = discharge(o2, axioms, max(timeout_ms, 20000), want_model)
         return r
     def stage(depth, to):
         nonlocal total
@@ -97,6 +119,22 @@ def discharge(ob, axioms, timeout_ms=20000, want_model=True):
             return {"status": "proved", "time": total, "backend": f"z3(relevant depth {depth}: {len(hs)}/{len(hyps)} hyps)", "model": None, "reason": ""}
         return None
 
+    # stage 0: only the hypotheses that speak about nothing but the goal's own symbols (no definitions): pure
+    # sequence / arithmetic steps such as drop(a ++ b, k) == drop(a, k) ++ b are immediate there and hopeless in a
+    # large context
+    gs = symbols(ob.goal)
+    tiny = [h for h in hyps if not z3.is_quantifier(h) and symbols(h) and symbols(h) <= gs]
+    if tiny and len(tiny) < len(hyps):
+        r, dt, _ = _check(tiny, [], ob.goal, min(1000, timeout_ms))
+        total += dt
+        if r == z3.unsat:
+            return {"status": "proved", "time": total, "backend": f"z3(goal-symbol hypotheses only: {len(tiny)}/{len(hyps)})", "model": None, "reason": ""}
+        if r == z3.unknown:
+            # (a `sat` answer means these hypotheses alone do not suffice: no point asking the other solvers)
+            ext = external_portfolio(tiny, [], ob.goal, min(timeout_ms, 3000))
+            total += ext["time"]
+            if ext["status"] == "proved":
+                return {"status": "proved", "time": total, "backend": ext["backend"] + f" (goal-symbol hypotheses only: {len(tiny)}/{len(hyps)})", "model": None, "reason": ""}
     res = stage(1, min(1500, timeout_ms))
     if res:
         return res
@@ -132,7 +170,49 @@ def discharge(ob, axioms, timeout_ms=20000, want_model=True):
             # without mbqi 'sat' is only a candidate (quantified hypotheses may be violated): stays unknown, model kept
             out["model"] = s2.model() if want_model else None
             out["candidate"] = True
+            # confirm the candidate on the *full* hypothesis set: pin the scalar / sequence constants to the candidate's
+            # values, which leaves a nearly ground problem; a `sat` answer there is a genuine counter-model
+            try:
+                m2 = s2.model()
+                pins = []
+                for c in constants_of(hyps + [ob.goal]):
+                    v = m2.eval(c, model_completion=True)
+                    if z3.is_int_value(v) or z3.is_true(v) or z3.is_false(v) or (z3.is_seq(c) and z3.is_app(v) and not symbols(v)):
+                        pins.append(c == v)
+                r3, dt3, s3 = _check(hyps + pins, axioms, ob.goal, min(8000, timeout_ms))
+                out["time"] += dt3
+                if r3 == z3.sat:
+                    out["status"] = "refuted"
+                    out["backend"] = "z3(candidate from mbqi=off, confirmed with quantifiers on pinned inputs)"
+                    out["model"] = s3.model() if want_model else None
+                    out.pop("candidate", None)
+            except z3.Z3Exception:
+                pass
     return out
+
+
+def constants_of(fs):
+    """0-ary uninterpreted constants of sort Int / Bool / Seq occurring in the formulas."""
+    out, seen = {}, set()
+    stack = list(fs)
+    while stack:
+        t = stack.pop()
+        tid = t.get_id()
+        if tid in seen:
+            continue
+        seen.add(tid)
+        if z3.is_quantifier(t):
+            stack.append(t.body())
+            continue
+        if z3.is_app(t):
+            d = t.decl()
+            if d.kind() == z3.Z3_OP_UNINTERPRETED and d.arity() == 0 and (z3.is_int(t) or z3.is_bool(t) or z3.is_seq(t)):
+                out[d.name()] = t
+            elif d.kind() == z3.Z3_OP_UNINTERPRETED and d.arity() >= 1 and (z3.is_int(t) or z3.is_bool(t)) and d.name().startswith("fld_") \
+                    and all(z3.is_app(c) and c.num_args() == 0 for c in t.children()):
+                out[t.sexpr()] = t          # a field of an input object: an input scalar as well
+            stack.extend(t.children())
+    return list(out.values())
 
 
 EXTERNAL = [("cvc5-1.0.3", ["/usr/bin/cvc5", "--strings-exp", "--lang=smt2"], "--tlimit=%d"),
